@@ -12,6 +12,8 @@ import Scale.Entry
 import Proofs.RoundTrip
 import Proofs.Faithful
 import Props.C08
+import Props.C03
+import Proofs.Footprint
 namespace Scale.C09
 open Scale Impl
 
@@ -66,6 +68,62 @@ theorem item_chunks_first_reservation (sz : Nat) (item : Prog Val) (len : Nat) (
     have : ¬ n + 1 = 0 := by omega
     simp only [this, if_false]
     exact ⟨_, rfl⟩
+
+/-! ### The decoded value: memory held is linear in the bytes consumed
+
+`held ty v` is the heap the decoded value keeps alive in the crate's own units (`len * size_of`
+per sequence, pointee size per box, one byte per string byte, the storage words of a bit
+sequence); `memRatio ty` and `baseMem ty` are static. The statement carries the hypothesis
+`productive ty` — every sequence element type consumes at least one input byte per element; the
+full-strength statement without it is **false** for the current code (`unproductive_unbounded`
+below, finding F4), hence the `_partial` suffix. -/
+
+/-- Every well-formed value of a productive type holds at most `memRatio` bytes of heap per byte of
+    its encoding, plus the fixed pointees. -/
+theorem held_le_encoding_partial (ty : Ty) (v : Val) (hp : productive ty = true) (hwf : wf ty v = true) :
+    held ty v ≤ memRatio ty * (Spec.encode ty v).length + baseMem ty :=
+  held_le ty v hp hwf
+
+/-- Hence for decoding: whatever counts the input claims, a successful decode of `bs` leaving
+    `rest` returns a value holding at most `memRatio ty` bytes per byte **consumed** (wire-canonical
+    types; for maps, sets, heaps and bit sequences the value-level theorem above applies to the
+    returned value). -/
+theorem held_le_consumed_partial (ty : Ty) (hw : widthsOk ty = true) (hl : layoutOk ty = true)
+    (hc : wireCanon ty = true) (hp : productive ty = true) (bs rest : Bytes) (v : Val)
+    (h : decode ty bs = (.ok v, rest)) :
+    held ty v ≤ memRatio ty * (bs.length - rest.length) + baseMem ty := by
+  obtain ⟨hwf, rfl⟩ := (C03.accepts_exactly_encodings ty hw hl hc bs rest v).mp h
+  have := held_le ty v hp hwf
+  simpa using this
+
+/-- The negation of the full-strength statement (finding F4): for an element type with an empty
+    encoding the held memory is the claimed count times the node size, from at most 5 bytes. -/
+theorem unproductive_unbounded (k : SeqKind) (sz n : Nat) (hn : n ≤ u32Max) :
+    wf (.seq k sz .unit) (.seq (List.replicate n .unit)) = true ∧
+    held (.seq k sz .unit) (.seq (List.replicate n .unit)) = n * sz ∧
+    (Spec.encode (.seq k sz .unit) (.seq (List.replicate n .unit))).length ≤ 5 := by
+  refine ⟨?_, ?_, ?_⟩
+  · simp [wf, hn]
+  · have : ∀ m, ((List.replicate m Val.unit).map (held .unit)).sum = 0 := by
+      intro m; induction m with
+      | zero => simp
+      | succ m ih => simp [List.replicate_succ, held, ih]
+    simp [held, this]
+  · have hx : n < 2 ^ (8 * 4) := by simp [u32Max] at hn; omega
+    have := spec_compactLen_le_cap (w := 4) (by simp) hx
+    rw [← spec_compact_length] at this
+    have e : ∀ m, ((List.replicate m Val.unit).map (Spec.encode .unit)).flatten = [] := by
+      intro m; induction m with
+      | zero => simp
+      | succ m ih => simp [List.replicate_succ, Spec.encode, ih]
+    simp only [Spec.encode, List.length_replicate, e, List.append_nil]
+    simpa [compactCap] using this
+
+/-- `productive` is decidable and satisfiable: `Vec<Vec<u32>>`, `BTreeMap<u8, String>`-like shapes. -/
+example : productive (.seq .vec 24 (.seq .vec 4 (.prim .u32))) = true := by decide
+example : productive (.seq .bmap 32 (.tuple [.prim .u8, .str])) = true := by decide
+example : productive (.seq .list 16 .unit) = false := by decide
+example : memRatio (.seq .vec 24 (.seq .vec 4 (.prim .u32))) = 28 := by decide
 
 /-! ### The excluded point (finding F4): element types whose encoding is empty but whose in-memory
     footprint is not — the input then bounds nothing. Kernel-checked on the model: two input bytes
